@@ -358,7 +358,15 @@ void vfps::HDF5File::addParameterToGroup(std::string groupname,
 void vfps::HDF5File::append(const ElectricField* ef, const bool fullspectrum)
 {
     if (fullspectrum) {
-        _appendData(_csrSpectrum,ef->getCSRSpectrum());
+        // the data set keeps the first _maxn samples of each bunch's spectrum,
+        // in memory every bunch's row holds getNMax() samples
+        const csrpower_t* spectrum = ef->getCSRSpectrum();
+        const size_t rowlength = ef->getNMax();
+        std::vector<csrpower_t> rows(static_cast<size_t>(_nBunches)*_maxn);
+        for (size_t b=0; b<_nBunches; b++) {
+            std::copy_n(spectrum+b*rowlength,_maxn,rows.data()+b*_maxn);
+        }
+        _appendData(_csrSpectrum,rows.data());
     }
     _appendData(_csrIntensity,ef->getCSRPower());
 }
